@@ -384,6 +384,23 @@ def ret_or_noop(p):
     return "bad" not in r and "op" not in r
 
 
+def erase(p):
+    """rich skeleton (CProg) -> plain skeleton (Prog): conditions forgotten, text-buffer operations dropped (same rule as Lean `CProg.erase`)"""
+    k = p[0]
+    if k in ("addText", "clearText"):
+        return SKIP
+    if k == "seq":
+        a, b = erase(p[1]), erase(p[2])
+        return b if a == SKIP else a if b == SKIP else ("seq", a, b)
+    if k == "ifData" and len(p) == 4:
+        return ("ifData", erase(p[2]), erase(p[3]))
+    if k in ("ifData", "ifNoAttrs", "ifHasAttrs", "ifStateErr", "ifBlank"):
+        return (k, erase(p[1]), erase(p[2]))
+    if k == "scope":
+        return ("scope", erase(p[1]))
+    return p
+
+
 class Skeletons:
     CONTROL_WORDS = ("state", "error", "next", "after", "stag", "etag")
 
@@ -410,6 +427,10 @@ class Skeletons:
                     changed = True
         self.cache = {}
         self.stack = []
+        self.rich = False          # rich = the CProg translation (conditions described, text-buffer operations kept)
+        self.hdr = ""              # dataparser.h (member declarations), set by analyse()
+        self.g3struct = ""         # body of struct DataParser_g3
+        self.streams = {}          # per function being translated (rich mode): stream variable -> [source, used?]
 
     def is_data_only(self, text):
         if re.search(r"\b(" + "|".join(self.CONTROL_WORDS) + r")\b", text):
@@ -422,19 +443,22 @@ class Skeletons:
         return True
 
     def prog(self, name, kind):
-        key = (name, kind)
+        key = (name, kind, self.rich)
         if key in self.cache:
             return self.cache[key]
         if key in self.stack:
             fail(f"recursive call of DataParser::{name}")
-        f = self.by.get(key)
+        f = self.by.get((name, kind))
         if f is None:
             fail(f"definition of DataParser::{name} ({kind} handler) not found")
         self.stack.append(key)
+        saved = self.streams
+        self.streams = {}
         p = self.special(f)
         if p is None:
             stmts = parse_seq(f.body, f"DataParser::{name} ({f.file}:{f.line})")
             p = seq(*[self.tr(s, f) for s in stmts])
+        self.streams = saved
         self.stack.pop()
         self.cache[key] = p
         return p
@@ -449,7 +473,122 @@ class Skeletons:
             if norm(f.body) != 'while(len--){if(!isspace(s[len]))return error("### illegal text");}return 0;':
                 fail("DataParser::white_spaces no longer has the modelled body: " + norm(f.body)[:160])
             return ("ifBlank", SKIP, seq(("err", "text"), RET))
+        if f.name == "add_text" and f.kind == "data" and self.rich:
+            if not re.fullmatch(r"\s*text_buffer\s*\+=\s*' '\s*;\s*text_buffer\s*\+=\s*string\s*\(\s*s\s*,\s*std::string::size_type\s*\(\s*len\s*\)\s*\)\s*;\s*return\s+0\s*;\s*", f.body):
+                fail("DataParser::add_text no longer has the modelled body (a blank, then the piece, appended to text_buffer): " + norm(f.body)[:160])
+            return seq(("addText",), RET)
         return None
+
+    # ---- rich mode: what a data-only condition / statement is
+
+    STREAM_DECL = re.compile(r"^(?:std::)?i?stringstream\s+(\w+)\s*\((.*)\)$", re.S)
+    KINDS = {"double": "double", "string": "word", "std::string": "word", "int": "int", "std::size_t": "size", "size_t": "size"}
+
+    def note_streams(self, text, f):
+        """bookkeeping of the (i)stringstream variables of the function: declaration -> source, any later mention -> used"""
+        m = self.STREAM_DECL.match(text.strip())
+        if m:
+            var, arg = m.group(1), norm(m.group(2))
+            if arg in ("text_buffer", "text_buffer.c_str()"):
+                src = "buffer"
+            elif f.kind == "data" and arg in (f"string({f.params[0]},size_t({f.params[1]}))", f"string({f.params[0]},std::size_t({f.params[1]}))"):
+                src = "piece"
+            else:
+                src = None           # a stream over something else (a word extracted before): its conditions stay `other`
+            self.streams[var] = [src, False]
+            return
+        for var in self.streams:
+            if re.search(r"\b" + re.escape(var) + r"\b", text):
+                self.streams[var][1] = True
+
+    def var_kind(self, v, f):
+        w = self.where(f)
+        def decl_in(text, name):
+            for m in re.finditer(r"(?<![\w:])((?:std::)?(?:double|string|int|size_t))\s+([^;(){}]*?);", text):
+                names = [re.sub(r"=.*", "", x).strip() for x in split_top(m.group(2))]
+                if name in names:
+                    return self.KINDS[m.group(1)]
+            return None
+        m = re.fullmatch(r"g3->(\w+)", v)
+        if m:
+            k = decl_in(self.g3struct, m.group(1))
+        elif re.fullmatch(r"\w+\.\w+", v):
+            a, b = v.split(".")
+            mm = re.search(r"struct\s*\{([^}]*)\}\s*" + re.escape(a) + r"\s*;", self.hdr)
+            k = decl_in(mm.group(1), b) if mm else None
+        elif re.fullmatch(r"\w+", v):
+            k = decl_in(f.body, v) or decl_in(self.hdr, v)
+        else:
+            k = None
+        if k is None:
+            fail(f"{w}: type of the extracted variable `{v}` not found (double / string / int / size_t declarations are recognised)")
+        return k
+
+    def chain(self, text, f):
+        """`istr >> a >> b` (normalised) -> (stream variable, [kinds]) or None"""
+        parts = text.split(">>")
+        if not re.fullmatch(r"\w+", parts[0]) or parts[0] not in self.streams:
+            return None
+        if not all(re.fullmatch(r"[\w.]+|g3->\w+", x) for x in parts[1:]):
+            return None
+        return parts[0], [self.var_kind(x, f) for x in parts[1:]]
+
+    def cond(self, cond, f):
+        """description of a data-only condition: ('pure', src, kinds, guard, neg) | ('fails', src, kinds) | ('other',)"""
+        w = self.where(f)
+        n = norm(cond)
+        desc = ("other",)
+        guard, neg, body = "none", False, None
+        m = re.fullmatch(r"(!?)pure_data\(([^()]*)\)", n)
+        if m:
+            neg, body = m.group(1) == "!", m.group(2)
+        else:
+            m = re.fullmatch(r"g3->model!=nullptr&&pure_data\(([^()]*)\)", n)
+            if m:
+                guard, body = "modelNonNull", m.group(1)
+            else:
+                m = re.fullmatch(r"pure_data\(([^()]*)\)&&(.+)", n)
+                if m and "pure_data" not in m.group(2) and "||" not in m.group(2):
+                    guard, body = "data", m.group(1)
+        if body is not None:
+            c = self.chain(body, f)
+            if c is None:
+                fail(f"{w}: unrecognised argument of pure_data: {body[:80]}")
+            var, kinds = c
+            src, used = self.streams[var]
+            if src is not None and not used and kinds:
+                desc = ("pure", src, tuple(kinds), guard, neg)
+            # else: the stream has been read before (g3_obs_cov) / is not over the element text: stays an oracle bit
+        elif "pure_data" in n:
+            fail(f"{w}: unrecognised condition with pure_data: {n[:100]}")
+        else:
+            m = re.fullmatch(r"!\(([^()]*>>[^()]*)\)", n)
+            if m:
+                c = self.chain(m.group(1), f)
+                if c is None:
+                    fail(f"{w}: unrecognised extraction chain: {n[:100]}")
+                var, kinds = c
+                src, used = self.streams[var]
+                if src is not None and not used:
+                    desc = ("fails", src, tuple(kinds))
+            elif ">>" in n and any(re.search(r"\b" + re.escape(v) + r"\b", n) for v in self.streams):
+                desc = ("other",)      # e.g. `istr >> f` inside the element loop of g3_obs_cov
+        self.note_streams(cond, f)
+        return desc
+
+    TEXT_READS = ("c_str", "size", "begin", "end", "empty", "length")
+
+    def text_op(self, t, f):
+        """rich mode: a data-only statement -> clearText | SKIP (anything else that may change text_buffer is refused)"""
+        self.note_streams(t, f)
+        n = norm(t)
+        if n in ("text_buffer.clear()", "text_buffer.erase()"):
+            return ("clearText",)
+        for m in re.finditer(r"\btext_buffer\b\s*(\+=|=(?!=)|\.\s*(\w+))", t):
+            if m.group(2) in self.TEXT_READS:
+                continue
+            fail(f"{self.where(f)}: statement may change text_buffer in a way that is not modelled: {t[:80]}")
+        return SKIP
 
     # the callee of `helper(...)` found in a statement
     def helper_call(self, text, f):
@@ -502,7 +641,7 @@ class Skeletons:
         if k == "simple":
             t = st[1]
             if t == "" or self.is_data_only(t):
-                return SKIP
+                return self.text_op(t, f) if (self.rich and t != "") else SKIP
             n = norm(t)
             if f.kind == "start" and n == f"state=next[state][tag({f.params[0]})]":
                 return ("setNext",)
@@ -533,7 +672,9 @@ class Skeletons:
                 return seq(self.call(calls[0][0], calls[0][3], f), RET)
             fail(f"{w}: unrecognised return expression: {e[:100]}")
         if k == "if":
-            cond, then, els = st[1], self.tr(st[2], f), (self.tr(st[3], f) if st[3] is not None else SKIP)
+            cond = st[1]
+            desc = self.cond(cond, f) if (self.rich and self.is_data_only(cond)) else None
+            then, els = self.tr(st[2], f), (self.tr(st[3], f) if st[3] is not None else SKIP)
             n = norm(cond)
             if f.kind == "start" and n == f"no_attributes({f.params[0]},{f.params[1]})":
                 return ("ifNoAttrs", then, els)
@@ -542,6 +683,12 @@ class Skeletons:
             if f.kind == "start" and n in (f"*{f.params[1]}",):
                 return ("ifHasAttrs", then, els)
             if self.is_data_only(cond):
+                if self.rich:
+                    if erase(then) == SKIP and erase(els) == SKIP:
+                        if then != SKIP or els != SKIP:
+                            fail(f"{w}: text_buffer is changed under a condition that has no control effect: {cond[:80]}")
+                        return SKIP
+                    return ("ifData", desc, then, els)
                 if then == SKIP and els == SKIP:
                     return SKIP
                 return ("ifData", then, els)
@@ -553,6 +700,19 @@ class Skeletons:
                 r"const\s+char\s*\*\*\s*attributes\s*=\s*" + re.escape(f.params[1] or "?") + r"\s*;", f.body)
             if not attr_loop and not self.is_data_only(hdr):
                 fail(f"{w}: loop header is not data-only: {hdr[:80]}")
+            if self.rich:
+                self.note_streams(hdr, f)
+                if erase(body) == SKIP:
+                    if body != SKIP:
+                        fail(f"{w}: text_buffer is changed inside a loop")
+                    return SKIP
+                if uses(body, ("clearText", "addText")):
+                    fail(f"{w}: text_buffer is changed inside a loop")
+                if not ret_or_noop(erase(body)):
+                    fail(f"{w}: a loop body with a control effect other than `... return` is not modelled")
+                # the condition of a loop body that is one `if` is the loop's condition: repeated, hence an oracle bit
+                b = ("ifData", ("other",), body[2], SKIP) if body[0] == "ifData" and body[3] == SKIP else ("ifData", ("other",), body, SKIP)
+                return ("ifHasAttrs", b, SKIP) if attr_loop else b
             if body == SKIP:
                 return SKIP
             if not ret_or_noop(body):
@@ -566,7 +726,12 @@ class Skeletons:
             hs = [self.tr(h, f) for h in st[2]]
             r = SKIP
             for h in reversed(hs):
-                if h != SKIP:
+                if self.rich:
+                    if erase(h) != SKIP:
+                        r = ("ifData", ("other",), h, r)
+                    elif h != SKIP:
+                        fail(f"{w}: text_buffer is changed inside a catch block")
+                elif h != SKIP:
                     r = ("ifData", h, r)
             return r
         fail(f"{w}: internal: unknown statement kind {k}")
@@ -821,6 +986,22 @@ def analyse(repo):
              "data": {h: sk.prog(h, "data") for h in data_h},
              "end": {h: sk.prog(h, "end") for h in end_h}}
     where = {(k, h): f"{sk.by[(h, k)].file}:{sk.by[(h, k)].line}" for k in progs for h in progs[k]}
+    # the same handlers once more with the data-dependent conditions described and the text-buffer operations kept
+    sk.rich = True
+    sk.hdr = hdr
+    g3src = dict(files)["dataparser_g3.cpp"]
+    m = re.search(r"\bstruct\s+DataParser_g3\s*\{", g3src)
+    if not m:
+        fail("struct DataParser_g3 not found in dataparser_g3.cpp")
+    sk.g3struct = g3src[m.end():match_close(g3src, m.end() - 1, "{", "}")]
+    cprogs = {"start": {h: sk.prog(h, "start") for h in start_h},
+              "data": {h: sk.prog(h, "data") for h in data_h},
+              "end": {h: sk.prog(h, "end") for h in end_h}}
+    sk.rich = False
+    for k in progs:
+        for h in progs[k]:
+            if erase(cprogs[k][h]) != progs[k][h]:
+                fail(f"DataParser::{h} ({k} handler): the skeleton with described conditions does not erase to the plain skeleton")
     for k in ("data", "end"):
         for h, p in progs[k].items():
             if uses(p, ("setNext", "noAttrs", "ifNoAttrs", "ifHasAttrs")):
@@ -829,7 +1010,7 @@ def analyse(repo):
         if uses(p, ("ifBlank",)):
             fail(f"DataParser::{h} (start handler) tests character data")
     return dict(states=states, tags=tags, tables=tb, tagtab=tagtab, start_h=start_h, data_h=data_h, end_h=end_h,
-                progs=progs, where=where, null_etag=null_etag, overwritten=tb.overwritten)
+                progs=progs, cprogs=cprogs, where=where, null_etag=null_etag, overwritten=tb.overwritten)
 
 
 def uses(p, kinds):
@@ -1019,6 +1200,119 @@ def generate(repo):
     return "\n".join(L) + "\n"
 
 
+def cond_lean(c):
+    if c[0] == "other":
+        return ".other"
+    ks = "[" + ", ".join("." + k for k in c[2]) + "]"
+    if c[0] == "fails":
+        return f"(.fails .{c[1]} {ks})"
+    return f"(.pure .{c[1]} {ks} .{c[3]} {'true' if c[4] else 'false'})"
+
+
+def cprog_lean(p, top=False):
+    k = p[0]
+    if not top and END_TAG_CPROG[0] is not None and p == END_TAG_CPROG[0]:
+        return "cEndTagProg"
+    if k in ("skip", "ret", "setNext", "setAfter", "noAttrs", "addText", "clearText"):
+        return "." + k
+    if k == "err":
+        return f"(.err .{p[1]})"
+    if k == "scope":
+        return f"(.scope {cprog_lean(p[1])})"
+    if k == "ifData":
+        return f"(.ifData {cond_lean(p[1])} {cprog_lean(p[2])} {cprog_lean(p[3])})"
+    if k in ("seq", "ifNoAttrs", "ifHasAttrs", "ifStateErr", "ifBlank"):
+        return f"(.{k} {cprog_lean(p[1])} {cprog_lean(p[2])})"
+    fail("internal: cprog_lean " + k)
+
+
+END_TAG_CPROG = [None]
+
+
+def conds_of(p, out):
+    if p[0] == "ifData" and len(p) == 4:
+        out.append(p[1])
+    for x in p[1:]:
+        if isinstance(x, tuple) and x and isinstance(x[0], str) and x[0] not in ("pure", "fails", "other"):
+            conds_of(x, out)
+    return out
+
+
+def generate_conds(repo, a=None):
+    """lean/Gama/Gen/DataParserConds.lean: every handler once more as `CProg` = the skeleton of Gen/DataParserAutomaton.lean with
+    (1) every data-dependent condition DESCRIBED and (2) the statements that change `text_buffer` kept"""
+    a = a or analyse(repo)
+    L = []
+    A = L.append
+    A("/-")
+    A("  GENERATED by tools/gen/c11_dataparser.py from lib/gnu_gama/xml/dataparser.h, dataparser.cpp, dataparser_g3.cpp,")
+    A("  dataparser_g3adj.cpp, dataparser_adj.cpp of the current working tree.")
+    A("  DO NOT EDIT: regenerated (and the proofs re-checked) on every run.")
+    A("-/")
+    A("import Gama.Gen.DataParserAutomaton")
+    A("namespace Gama.DP")
+    A("")
+    A("/-- type of the variable behind one `>> x` (read from its declaration: local, member of DataParser, member of DataParser_g3):")
+    A("    `double`, `std::string` (a blank-delimited word), `int`, `std::size_t` -/")
+    A("inductive XKind where | double | word | int | size")
+    A("  deriving DecidableEq, Repr, Inhabited")
+    A("")
+    A("/-- what the stringstream of the handler is built from: `text_buffer` (`stringstream istr(text_buffer)`,")
+    A("    `istringstream inp(text_buffer.c_str())`) or the piece of character data handed to a data handler (`string(s, size_t(len))`) -/")
+    A("inductive Src where | buffer | piece")
+    A("  deriving DecidableEq, Repr, Inhabited")
+    A("")
+    A("/-- a conjunct next to `pure_data(…)` in the same condition: none; `g3->model != nullptr &&` in front; further tests on the")
+    A("    extracted VALUES behind (`&& dim>0 && width<dim`) -/")
+    A("inductive Guard where | none | modelNonNull | data")
+    A("  deriving DecidableEq, Repr, Inhabited")
+    A("")
+    A("/-- a data-dependent condition of a handler (`Prog.ifData`):")
+    A("    `pure src chain g neg` = `[!] ( [g &&] pure_data(istr >> x1 >> … >> xn) )`, `istr` a stream over `src` not read before;")
+    A("    `fails src chain`      = `!(istr >> x1 >> … >> xn)` (only the failure of the extractions is tested);")
+    A("    `other`                = anything else: counters, null pointers, comparisons of values, exceptions of the matrix code,")
+    A("                             a stream that was read before (`g3_obs_cov`), loops -/")
+    A("inductive Cond where")
+    A("  | pure (src : Src) (chain : List XKind) (g : Guard) (neg : Bool)")
+    A("  | fails (src : Src) (chain : List XKind)")
+    A("  | other")
+    A("  deriving DecidableEq, Repr, Inhabited")
+    A("")
+    A("/-- `Prog` with described conditions and the operations on `text_buffer`:")
+    A("    `addText` = `text_buffer += ' '; text_buffer += string(s, len);`   `clearText` = `text_buffer.clear()` / `.erase()` -/")
+    A("inductive CProg where")
+    A("  | skip | setNext | setAfter | noAttrs | ret | addText | clearText")
+    A("  | err (k : ErrKind)")
+    A("  | seq (a b : CProg) | ifData (c : Cond) (a b : CProg) | ifNoAttrs (a b : CProg) | ifHasAttrs (a b : CProg)")
+    A("  | ifStateErr (a b : CProg) | ifBlank (a b : CProg)")
+    A("  | scope (a : CProg)")
+    A("  deriving DecidableEq, Repr, Inhabited")
+    A("")
+    END_TAG_CPROG[0] = a["cprogs"]["end"]["end_tag"]
+    A("def cEndTagProg : CProg := " + cprog_lean(END_TAG_CPROG[0], top=True))
+    A("")
+    for nm, kind, hs in (("cStartProg", "start", a["start_h"]), ("cDataProg", "data", a["data_h"]), ("cEndProg", "end", a["end_h"])):
+        A(f"def {nm} : {'StartH' if kind == 'start' else 'DataH' if kind == 'data' else 'EndH'} → CProg")
+        for h in hs:
+            A(f"  | .h_{h} => {cprog_lean(a['cprogs'][kind][h])}")
+        if kind == "end":
+            A("  | .null_ => .skip")
+        A("")
+    A("/-- the conditions of every handler in source order (for the record; `CProg` is what the model runs) -/")
+    A("def condTable : List (String × String × List Cond) := [")
+    rows = []
+    for kind, hs in (("start", a["start_h"]), ("data", a["data_h"]), ("end", a["end_h"])):
+        for h in hs:
+            cs = conds_of(a["cprogs"][kind][h], [])
+            if cs:
+                rows.append(f'  ("{h}", "{kind}", [' + ", ".join(cond_lean(c).strip("()") if c[0] == "other" else cond_lean(c) for c in cs) + "])")
+    A(",\n".join(rows))
+    A("]")
+    A("")
+    A("end Gama.DP")
+    return "\n".join(L) + "\n"
+
+
 def parse_pure_data(repo):
     """DataParser::pure_data: the ORDER of its tests, and the functions that call it
     -> (tests, callers) ; tests in ("failFalse", "eofTrue"), the final `char j; if (istr >> j) return false; else return true;` is checked textually"""
@@ -1101,7 +1395,8 @@ def run(repo, verif):
     text = generate(repo)
     a = write_if_changed(Path(verif) / "lean" / "Gama" / "Gen" / "DataParserAutomaton.lean", text)
     b = write_if_changed(Path(verif) / "lean" / "Gama" / "Gen" / "PureData.lean", generate_pure_data(repo))
-    return a or b
+    c = write_if_changed(Path(verif) / "lean" / "Gama" / "Gen" / "DataParserConds.lean", generate_conds(repo))
+    return a or b or c
 
 
 if __name__ == "__main__":
